@@ -420,6 +420,31 @@ pub fn exec(lineno: usize, l: &str) -> String {
                 w.as_u32()
             );
         },
+        // projection for C10 / C20: the field and character accessors only
+        "accf" => {
+            let w = nums()[0] as u32;
+            let _ = write!(
+                o,
+                " {} {} {} {} {} {} {} {} {} {} {} {}",
+                rank_index(w.get_card_rank()),
+                suit_index(w.get_card_suit()),
+                w.get_rank_prime(),
+                w.get_rank_bit(),
+                w.get_rank_flag(),
+                w.get_suit_bit(),
+                w.get_suit_flag(),
+                w.get_rank_char() as u32,
+                w.get_suit_char() as u32,
+                w.get_suit_letter() as u32,
+                b(w.is_blank()),
+                w.as_u32()
+            );
+        },
+        // projection for C17: the per-card high-card points only (doubled)
+        "accp" => {
+            let w = nums()[0] as u32;
+            let _ = write!(o, " {}", (w.get_chen_points() * 2.0) as i64);
+        },
         "flags" => {
             let w = nums()[0] as u32;
             let _ = write!(
